@@ -31,6 +31,9 @@ Rules(e) ==
           <<"C10.audio-untouched", e.ret \in {"inplace", "rebuilt"} => (e.audio_same /\ e.pcm_same)>>,
           \* the path-taking front end update(path) is update_file over the same bytes: same verdict, same resulting file,
           \* and the file as it was when the edit is refused
+          \* foreign bytes in front of the stream (handle positioned at the stream start) are never touched
+          <<"C10.result-is-a-flac-stream", "new_parseable" \in DOMAIN e => e.new_parseable>>,
+          <<"C10.leading-bytes-untouched", "lead_intact" \in DOMAIN e => e.lead_intact>>,
           <<"C10.path-front-end-agrees", "path" \in DOMAIN e => (e.path.ret = e.ret /\ e.path.same)>> >>
 
 Init == l = 1 /\ blocks = <<>> /\ outcome = [res |-> "init"] /\ nedits = 0
